@@ -253,9 +253,9 @@ Section MV.
 End MV.
 Fixpoint mvfree (f : form) {struct f} : bool :=
   match f with
-  | Const _ | Tr _ | Signal _ | Incf _ | Lt _ _ | Setv _ _ | CallList _ | Progn _ | Tagbody _
+  | Const _ | Tr _ | Signal _ | Incf _ | Lt _ _ | Setv _ _ | CallList _ | Tagbody _
   | ReturnFrom _ _ | Return _ | Go _ => true
-  | When _ body | Let _ body | WithMutex _ body | WithFile _ body => last_ok mvfree body
+  | Progn body | When _ body | Let _ body | WithMutex _ body | WithFile _ body => last_ok mvfree body
   | Cond cs => clauses_ok mvfree cs
   | UnwindProtect _ p _ => mvfree p
   | _ => false
